@@ -18,7 +18,13 @@
 //!   that backend object, after every operation; zero after everything was closed; a panic under
 //!   /repo (overflow checks are on) is a violation.
 
-use std::{cell::RefCell, collections::HashMap, net::SocketAddr, rc::Rc, time::Duration};
+use std::{
+    cell::RefCell,
+    collections::HashMap,
+    net::SocketAddr,
+    rc::Rc,
+    time::{Duration, Instant},
+};
 
 use serde_json::{Value, json};
 use sozu_command_lib::proto::command::{
@@ -99,13 +105,30 @@ struct BSnap {
     /// 0 Normal, 1 Closing, 2 Closed
     status: u8,
     healthy: bool,
-    /// `retry_policy.can_try() == Some(OKAY)`: not inside the failure back-off window
+    /// not inside the failure back-off window: `retry_policy.can_try() == Some(OKAY)` AND the
+    /// harness's own clock does not place the instant well inside a window it saw being opened
     retry_ok: bool,
+    /// what sozu's policy answers alone
+    retry_ok_sozu: bool,
+    /// by the harness's own clock (read after the policy was asked) the instant lies at least
+    /// `WINDOW_MARGIN` before the end of a back-off window opened by a failure the harness
+    /// witnessed (own Instant taken just before the failure + the wait the policy drew)
+    own_backoff: bool,
+    /// that window was opened on a policy whose reference instant (creation, last success) was
+    /// older than the drawn wait
+    own_aged: bool,
     down: bool,
     /// only with `--opt strict_down=1`: an exhausted retry budget counts as ineligible
     down_blocks: bool,
+    /// role the control plane last asked for (arguments of the last add for this id+address)
     backup: bool,
+    /// sticky id the control plane last asked for
     sticky: Option<String>,
+    /// what the live object carries
+    field_backup: bool,
+    field_sticky: Option<String>,
+    /// a re-add of the same id+address changed the role since the object was created
+    role_changed: bool,
     weight: Option<i32>,
     conns: usize,
     reqs: usize,
@@ -133,20 +156,40 @@ impl BSnap {
             "closed"
         } else if !self.healthy {
             "unhealthy"
-        } else if !self.retry_ok {
+        } else if !self.retry_ok_sozu {
             "backoff"
+        } else if self.own_backoff {
+            "backoff_window_not_armed"
         } else if self.down_blocks {
             "down"
         } else {
             "eligible"
         }
     }
+    /// why fail-open may not use this backend (health does not matter there)
+    fn fail_open_reason(&self) -> &'static str {
+        if !self.member {
+            "removed"
+        } else if self.status == 1 {
+            "closing"
+        } else if self.status == 2 {
+            "closed"
+        } else if !self.retry_ok_sozu {
+            "backoff"
+        } else if self.own_backoff {
+            "backoff_window_not_armed"
+        } else {
+            "usable"
+        }
+    }
     fn json(&self) -> Value {
         let status = ["Normal", "Closing", "Closed"][self.status as usize];
         json!({"id": self.id, "addr": self.addr.to_string(),
             "status": status,
-            "healthy": self.healthy, "retry_okay": self.retry_ok, "down": self.down,
-            "backup": self.backup, "sticky": self.sticky, "weight": self.weight,
+            "healthy": self.healthy, "retry_okay": self.retry_ok_sozu,
+            "inside_window_by_harness_clock": self.own_backoff, "down": self.down,
+            "backup_asked": self.backup, "backup_field": self.field_backup,
+            "sticky_asked": self.sticky, "sticky_field": self.field_sticky, "weight": self.weight,
             "conns": self.conns, "reqs": self.reqs, "member": self.member,
             "eligible": self.eligible()})
     }
@@ -200,6 +243,58 @@ struct Obj {
     cluster: usize,
     /// connections the harness currently holds open on this object (Σ inc − Σ dec)
     held: usize,
+    /// harness-side record of the policy's reference instant: object first seen, last succeed(),
+    /// policy replaced, last effective failure
+    stamp: Instant,
+    /// end of the back-off window the harness saw being opened (own clock)
+    window_until: Option<Instant>,
+    window_aged: bool,
+}
+
+impl Obj {
+    fn new(rc: Rc<RefCell<Backend>>, cluster: usize, held: usize) -> Obj {
+        Obj { rc, cluster, held, stamp: Instant::now(), window_until: None, window_aged: false }
+    }
+}
+
+/// what the control plane last asked for, for one (id, address) of a cluster
+#[derive(Clone, Debug)]
+struct Member {
+    id: String,
+    addr: SocketAddr,
+    backup: bool,
+    sticky: Option<String>,
+    weight: Option<i32>,
+    role_changed: bool,
+}
+
+/// selections are judged against a harness-known back-off window only when they returned at
+/// least this long before its end (a stalled thread can only make the harness skip, never accuse)
+const WINDOW_MARGIN: Duration = Duration::from_millis(200);
+
+/// the wait the policy drew at its last failure. The field is private; `Debug` prints it
+/// (`wait: 3s`). The policy never draws less than 1 s (retry.rs), which is the fallback.
+fn policy_wait(p: &sozu_lib::retry::RetryPolicyWrapper) -> Duration {
+    let d = format!("{p:?}");
+    let parsed = d.rfind("wait: ").and_then(|i| {
+        let t = &d[i + 6..];
+        let end = t.find(|c: char| !(c.is_ascii_digit() || c == '.'))?;
+        let n: f64 = t[..end].parse().ok()?;
+        let unit = &t[end..];
+        let secs = if unit.starts_with("ns") {
+            n / 1e9
+        } else if unit.starts_with("µs") || unit.starts_with("us") {
+            n / 1e6
+        } else if unit.starts_with("ms") {
+            n / 1e3
+        } else if unit.starts_with('s') {
+            n
+        } else {
+            return None;
+        };
+        Some(Duration::from_secs_f64(secs.clamp(0.0, 3600.0)))
+    });
+    parsed.unwrap_or(Duration::from_secs(1))
 }
 
 struct Conn {
@@ -224,7 +319,7 @@ struct Lab<'a> {
     seed: u64,
     rng: Rng,
     map: BackendMap,
-    members: [Vec<(String, SocketAddr)>; 2],
+    members: [Vec<Member>; 2],
     objs: Vec<Obj>,
     conns: Vec<Conn>,
     algo: [Algo; 2],
@@ -239,6 +334,7 @@ struct Lab<'a> {
     strict_down: bool,
     allow_sleep: bool,
     slept: bool,
+    aged: bool,
     log: &'a RefCell<Vec<String>>,
     shape: Vec<u8>,
     reached: Reached,
@@ -268,23 +364,37 @@ impl<'a> Lab<'a> {
             .iter()
             .map(|rc| {
                 let b = rc.borrow();
+                let retry_ok_sozu = b.retry_policy.can_try() == Some(RetryAction::OKAY);
+                // own clock read AFTER the policy answered
+                let now = Instant::now();
+                let obj = self.objs.iter().find(|o| Rc::ptr_eq(&o.rc, rc));
+                let own_backoff = obj.and_then(|o| o.window_until).is_some_and(|u| now + WINDOW_MARGIN < u);
+                let own_aged = own_backoff && obj.is_some_and(|o| o.window_aged);
+                let model = self.members[c].iter().find(|m| m.id == b.backend_id && m.addr == b.address);
                 BSnap {
                     ptr: Rc::as_ptr(rc) as usize,
                     id: b.backend_id.clone(),
                     addr: b.address,
                     status: status_code(&b.status),
                     healthy: b.health.is_healthy(),
-                    retry_ok: b.retry_policy.can_try() == Some(RetryAction::OKAY),
+                    retry_ok: retry_ok_sozu && !own_backoff,
+                    retry_ok_sozu,
+                    own_backoff,
+                    own_aged,
                     down: b.retry_policy.is_down(),
                     down_blocks: self.strict_down && b.retry_policy.is_down(),
-                    backup: b.backup,
-                    sticky: b.sticky_id.clone(),
+                    backup: model.map(|m| m.backup).unwrap_or(b.backup),
+                    sticky: match model {
+                        Some(m) => m.sticky.clone(),
+                        None => b.sticky_id.clone(),
+                    },
+                    field_backup: b.backup,
+                    field_sticky: b.sticky_id.clone(),
+                    role_changed: model.is_some_and(|m| m.role_changed),
                     weight: b.load_balancing_parameters.as_ref().map(|p| p.weight),
                     conns: b.active_connections,
                     reqs: b.active_requests,
-                    member: self.members[c]
-                        .iter()
-                        .any(|(i, a)| *i == b.backend_id && *a == b.address),
+                    member: model.is_some(),
                 }
             })
             .collect()
@@ -296,7 +406,7 @@ impl<'a> Lab<'a> {
             let Some(list) = self.map.backends.get(CL[c]) else { continue };
             for rc in &list.backends {
                 if !self.objs.iter().any(|o| Rc::ptr_eq(&o.rc, rc)) {
-                    self.objs.push(Obj { rc: rc.clone(), cluster: c, held: 0 });
+                    self.objs.push(Obj::new(rc.clone(), c, 0));
                 }
             }
         }
@@ -356,6 +466,82 @@ impl<'a> Lab<'a> {
         let _ = rep;
     }
 
+    // ------------------------------------------------------------------ back-off windows
+
+    /// the harness witnessed a failure on object `o`: `ok_before` is what the policy answered just
+    /// before it, `t_f` the harness's own instant taken before the failure was inflicted
+    fn track_failure(&mut self, rep: &mut Report, o: usize, ok_before: bool, t_f: Instant) {
+        if !ok_before {
+            // the policy ignores failures while it is backing off: no new window
+            rep.obs("failures_while_already_backing_off", 1);
+            return;
+        }
+        let wait = policy_wait(&self.objs[o].rc.borrow().retry_policy);
+        let aged = t_f.duration_since(self.objs[o].stamp) > wait + Duration::from_millis(50);
+        self.objs[o].window_until = Some(t_f + wait);
+        self.objs[o].window_aged = aged;
+        self.objs[o].stamp = t_f;
+        rep.obs("backoff_windows_tracked", 1);
+        if aged {
+            rep.obs("backoff_windows_tracked_on_aged_policy", 1);
+        }
+        self.note(format!("  (harness: back-off window of {} runs {wait:?} from now{})", self.describe(o), if aged { ", policy older than that" } else { "" }));
+    }
+
+    /// what mux does on a connect error: failures += 1, retry_policy.fail()
+    fn inflict_failure(&mut self, rep: &mut Report, o: usize) {
+        let ok_before = self.objs[o].rc.borrow().retry_policy.can_try() == Some(RetryAction::OKAY);
+        let t_f = Instant::now();
+        {
+            let mut b = self.objs[o].rc.borrow_mut();
+            b.failures += 1;
+            b.retry_policy.fail();
+        }
+        self.track_failure(rep, o, ok_before, t_f);
+    }
+
+    fn policy_restamped(&mut self, o: usize) {
+        self.objs[o].stamp = Instant::now();
+        self.objs[o].window_until = None;
+        self.objs[o].window_aged = false;
+    }
+
+    /// state oracle, independent of the policy's clock: well inside a window the harness saw
+    /// being opened the policy must not answer OKAY
+    fn check_windows(&mut self, rep: &mut Report) {
+        if self.dead {
+            return;
+        }
+        for o in 0..self.objs.len() {
+            let Some(u) = self.objs[o].window_until else { continue };
+            let ok = self.objs[o].rc.borrow().retry_policy.can_try() == Some(RetryAction::OKAY);
+            let can_open = self.objs[o].rc.borrow().can_open();
+            let now = Instant::now();
+            if now >= u {
+                self.objs[o].window_until = None;
+                continue;
+            }
+            if now + WINDOW_MARGIN >= u {
+                continue;
+            }
+            rep.obs("window_state_checks", 1);
+            if self.objs[o].window_aged {
+                rep.obs("window_state_checks_on_aged_policy", 1);
+            }
+            if ok || can_open {
+                let d = self.describe(o);
+                let left = u - now;
+                rep.violation(
+                    "retry/not_backing_off_inside_window_after_failure",
+                    &format!("backend {d}: a connection failure was recorded {:?} before the end of the wait its policy drew, yet can_try() == {} and can_open() == {can_open}: the back-off window is not measured from the failure", left, if ok { "OKAY" } else { "WAIT" }),
+                    self.witness(json!({"backend": d, "window_left_ms": left.as_millis() as u64, "policy": format!("{:?}", self.objs[o].rc.borrow().retry_policy), "policy_older_than_wait_at_failure": self.objs[o].window_aged})),
+                );
+                self.dead = true;
+                return;
+            }
+        }
+    }
+
     // ------------------------------------------------------------------ selections
 
     /// Issue one selection on cluster `c`, judge it, return (chosen ptr, before, after)
@@ -363,6 +549,19 @@ impl<'a> Lab<'a> {
         let cl = CL[c];
         let before = self.snapshot(c);
         let mut new_conn: Option<Rc<RefCell<Backend>>> = None;
+        // connecting selections may record a failure themselves (try_connect -> fail())
+        let watch: Vec<(usize, usize, bool)> = if matches!(api, Api::MapConnect | Api::MapSticky(_)) {
+            before
+                .iter()
+                .filter_map(|b| {
+                    let o = self.obj_of_ptr(b.ptr)?;
+                    Some((o, self.objs[o].rc.borrow().failures, b.retry_ok_sozu))
+                })
+                .collect()
+        } else {
+            Vec::new()
+        };
+        let t_call = Instant::now();
         let got = match &api {
             Api::ListKey(key) => match self.map.backends.get_mut(cl) {
                 None => Got::None,
@@ -417,9 +616,23 @@ impl<'a> Lab<'a> {
                 }
             }
         };
+        for (o, failures, ok_before) in watch {
+            if self.objs[o].rc.borrow().failures > failures {
+                self.track_failure(rep, o, ok_before, t_call);
+            }
+        }
         let after = self.snapshot(c);
         let algo = self.algo[c];
         rep.obs("selections_total", 1);
+        if before.iter().any(|b| b.own_backoff) && after.iter().any(|b| b.own_backoff) {
+            rep.obs("selections_with_backend_inside_tracked_window", 1);
+            if before.iter().any(|b| b.own_aged) && after.iter().any(|b| b.own_aged) {
+                rep.obs("selections_with_aged_backend_inside_tracked_window", 1);
+            }
+        }
+        if before.iter().any(|b| b.role_changed) {
+            rep.obs("selections_judged_against_role_changed_by_readd", 1);
+        }
         rep.obs(&format!("selections/{}", algo.name()), 1);
         let key = match &api {
             Api::ListKey(k) | Api::MapKey(k) => *k,
@@ -438,7 +651,7 @@ impl<'a> Lab<'a> {
                 }
                 None => {
                     // unknown object: not in any list the harness has seen
-                    self.objs.push(Obj { rc, cluster: c, held: 1 });
+                    self.objs.push(Obj::new(rc, c, 1));
                     let o = self.objs.len() - 1;
                     self.conns.push(Conn { obj: o, requests: 0, established: false });
                 }
@@ -513,8 +726,13 @@ impl<'a> Lab<'a> {
                 } else {
                     let still = after.iter().find(|b| b.ptr == want.ptr).map(|b| b.eligible()).unwrap_or(false);
                     if still {
+                        let sig = if want.sticky != want.field_sticky {
+                            "sticky/valid_id_with_eligible_backend_not_honoured/id_from_readd_not_applied"
+                        } else {
+                            "sticky/valid_id_with_eligible_backend_not_honoured"
+                        };
                         rep.violation(
-                            "sticky/valid_id_with_eligible_backend_not_honoured",
+                            sig,
                             &format!("sticky id {sid} names {}@{} which is eligible before and after the call, but backend_from_sticky_session returned {}", want.id, want.addr, desc(&b0)),
                             ctx_json(self),
                         );
@@ -572,9 +790,17 @@ impl<'a> Lab<'a> {
                 if sticky_honoured {
                     rep.obs("backup_selected_by_sticky_exempt", 1);
                 } else if p0 && p1 {
+                    // roles are the ones the control plane last asked for; say so when the live
+                    // objects disagree with them
+                    let stale = before.iter().any(|b| b.member && b.backup != b.field_backup);
+                    let sig = if stale {
+                        "select/backup_while_primary_eligible/role_from_readd_not_applied"
+                    } else {
+                        "select/backup_while_primary_eligible"
+                    };
                     rep.violation(
-                        "select/backup_while_primary_eligible",
-                        &format!("{} on {cl} returned backup {}@{} although a primary is eligible before and after the call", api.name(), b0.id, b0.addr),
+                        sig,
+                        &format!("{} on {cl} returned {}@{}, a backup per the last add for that id+address (the live object says backup={}), although a primary is eligible before and after the call", api.name(), b0.id, b0.addr, b0.field_backup),
                         ctx_json(self),
                     );
                     self.dead = true;
@@ -606,8 +832,8 @@ impl<'a> Lab<'a> {
                 rep.inconclusive("eligibility changed during call");
             } else {
                 rep.violation(
-                    &format!("select/ineligible/{}/fail_open", b0.reason()),
-                    &format!("{} on {cl} returned {}@{} which is {} before and after the call; nothing is eligible, but fail-open is documented for Normal backends outside their back-off only", api.name(), b0.id, b0.addr, b0.reason()),
+                    &format!("select/ineligible/{}/fail_open", b0.fail_open_reason()),
+                    &format!("{} on {cl} returned {}@{} which is {} before and after the call; nothing is eligible, but fail-open is documented for Normal backends outside their back-off only", api.name(), b0.id, b0.addr, b0.fail_open_reason()),
                     ctx_json(self),
                 );
                 self.dead = true;
@@ -813,43 +1039,72 @@ impl<'a> Lab<'a> {
 
     fn op_add(&mut self, rep: &mut Report, c: usize) {
         let mem = self.members[c].clone();
-        let (id, addr, kind) = if !mem.is_empty() && self.rng.chance(1, 2) {
-            let (mid, maddr) = self.rng.pick(&mem).clone();
-            match self.rng.below(3) {
-                0 => {
-                    // same id, other address
-                    let a = *self.rng.pick(&self.addrs);
-                    (mid, a, 1u8)
-                }
-                1 => {
-                    // same address, other id
-                    let i = (*self.rng.pick(&IDS)).to_owned();
-                    (i, maddr, 2u8)
-                }
-                _ => (mid, maddr, 3u8), // same (id, address): update in place
-            }
-        } else {
-            ((*self.rng.pick(&IDS)).to_owned(), *self.rng.pick(&self.addrs), 0u8)
-        };
-        let sticky = if self.rng.chance(2, 3) { Some((*self.rng.pick(&STICKY)).to_owned()) } else { None };
-        let params = self.gen_weight();
-        let backup = match self.rng.below(6) {
+        let mut sticky = if self.rng.chance(2, 3) { Some((*self.rng.pick(&STICKY)).to_owned()) } else { None };
+        let mut params = self.gen_weight();
+        let mut backup = match self.rng.below(6) {
             0 | 1 => Some(true),
             2 => Some(false),
             _ => None,
         };
-        let existed = mem.iter().any(|(i, a)| *i == id && *a == addr);
-        let same_id_other_addr = !existed && mem.iter().any(|(i, _)| *i == id);
-        let same_addr_other_id = !existed && mem.iter().any(|(_, a)| *a == addr);
+        let (id, addr, kind) = if !mem.is_empty() && self.rng.chance(3, 5) {
+            let m = self.rng.pick(&mem).clone();
+            match self.rng.below(5) {
+                0 => {
+                    // same id, other address
+                    let a = *self.rng.pick(&self.addrs);
+                    (m.id, a, 1u8)
+                }
+                1 => {
+                    // same address, other id
+                    let i = (*self.rng.pick(&IDS)).to_owned();
+                    (i, m.addr, 2u8)
+                }
+                2 => (m.id, m.addr, 3u8), // same (id, address), everything redrawn: update in place
+                _ => {
+                    // same (id, address) with the role flipped; weight and sticky id kept or changed
+                    backup = if m.backup && self.rng.bool() { None } else { Some(!m.backup) };
+                    if self.rng.bool() {
+                        sticky = m.sticky.clone();
+                    }
+                    if self.rng.bool() {
+                        params = m.weight.map(|w| LoadBalancingParams { weight: w });
+                    }
+                    (m.id, m.addr, 4u8)
+                }
+            }
+        } else {
+            ((*self.rng.pick(&IDS)).to_owned(), *self.rng.pick(&self.addrs), 0u8)
+        };
+        let asked_backup = backup.unwrap_or(false);
+        let weight = params.as_ref().map(|p| p.weight);
+        let existing = mem.iter().position(|m| m.id == id && m.addr == addr);
+        let existed = existing.is_some();
+        let same_id_other_addr = !existed && mem.iter().any(|m| m.id == id);
+        let same_addr_other_id = !existed && mem.iter().any(|m| m.addr == addr);
         self.note(format!(
-            "add_backend {} {id}@{addr} sticky={sticky:?} weight={:?} backup={backup:?}{}",
+            "add_backend {} {id}@{addr} sticky={sticky:?} weight={weight:?} backup={backup:?}{}",
             CL[c],
-            params.as_ref().map(|p| p.weight),
             if existed { " (update in place)" } else { "" }
         ));
-        self.map.add_backend(CL[c], Backend::new(&id, addr, sticky, params, backup));
-        if !existed {
-            self.members[c].push((id, addr));
+        self.map.add_backend(CL[c], Backend::new(&id, addr, sticky.clone(), params, backup));
+        match existing {
+            None => self.members[c].push(Member { id, addr, backup: asked_backup, sticky, weight, role_changed: false }),
+            Some(i) => {
+                let m = &mut self.members[c][i];
+                if m.backup != asked_backup {
+                    m.role_changed = true;
+                    rep.obs(if asked_backup { "readds_demoting_primary_to_backup" } else { "readds_promoting_backup_to_primary" }, 1);
+                }
+                if m.sticky != sticky {
+                    rep.obs("readds_changing_sticky_id", 1);
+                }
+                if m.weight != weight {
+                    rep.obs("readds_changing_weight", 1);
+                }
+                m.backup = asked_backup;
+                m.sticky = sticky;
+                m.weight = weight;
+            }
         }
         self.max_members = self.max_members.max(self.members[c].len());
         self.discover();
@@ -862,13 +1117,13 @@ impl<'a> Lab<'a> {
         if same_addr_other_id {
             rep.obs("adds_same_address_other_id", 1);
         }
-        self.shape.extend_from_slice(&[1, kind, existed as u8, backup.unwrap_or(false) as u8]);
+        self.shape.extend_from_slice(&[1, kind, existed as u8, asked_backup as u8]);
     }
 
     fn op_remove(&mut self, rep: &mut Report, c: usize) {
         let mem = self.members[c].clone();
-        let addr = if !mem.is_empty() && self.rng.chance(9, 10) { self.rng.pick(&mem).1 } else { *self.rng.pick(&self.addrs) };
-        let expected: Vec<String> = mem.iter().filter(|(_, a)| *a == addr).map(|(i, _)| i.clone()).collect();
+        let addr = if !mem.is_empty() && self.rng.chance(9, 10) { self.rng.pick(&mem).addr } else { *self.rng.pick(&self.addrs) };
+        let expected: Vec<String> = mem.iter().filter(|m| m.addr == addr).map(|m| m.id.clone()).collect();
         // open connections on the objects about to leave the list
         let open: usize = self
             .objs
@@ -877,7 +1132,7 @@ impl<'a> Lab<'a> {
             .filter(|o| self.map.backends.get(CL[c]).map(|l| l.backends.iter().any(|rc| Rc::ptr_eq(rc, &o.rc))).unwrap_or(false))
             .count();
         let removed = self.map.remove_backend(CL[c], &addr);
-        self.members[c].retain(|(_, a)| *a != addr);
+        self.members[c].retain(|m| m.addr != addr);
         self.note(format!("remove_backend {} {addr} -> {removed:?}", CL[c]));
         if !expected.is_empty() {
             rep.obs("removes_of_present_address", 1);
@@ -974,16 +1229,13 @@ impl<'a> Lab<'a> {
             0..=2 => {
                 let k = *self.rng.pick(&[0usize, 1, 1, 2, 6]);
                 self.objs[o].rc.borrow_mut().retry_policy = ExponentialBackoffPolicy::new(k).into();
+                self.policy_restamped(o);
                 self.note(format!("retry_policy of {} := ExponentialBackoffPolicy::new({k})", self.describe(o)));
                 rep.obs("retry_policy_replaced", 1);
                 self.shape.extend_from_slice(&[5, k as u8]);
             }
             3..=7 => {
-                {
-                    let mut b = self.objs[o].rc.borrow_mut();
-                    b.failures += 1;
-                    b.retry_policy.fail();
-                }
+                self.inflict_failure(rep, o);
                 let down = self.objs[o].rc.borrow().retry_policy.is_down();
                 self.note(format!("connection failure on {}: failures+=1, retry_policy.fail() (down={down})", self.describe(o)));
                 rep.obs("retry_failures", 1);
@@ -995,6 +1247,7 @@ impl<'a> Lab<'a> {
                     b.failures = 0;
                     b.retry_policy.succeed();
                 }
+                self.policy_restamped(o);
                 self.note(format!("connection success on {}: failures=0, retry_policy.succeed()", self.describe(o)));
                 rep.obs("retry_successes", 1);
                 self.shape.extend_from_slice(&[7]);
@@ -1034,6 +1287,7 @@ impl<'a> Lab<'a> {
                     b.retry_policy.succeed();
                     b.active_requests += 1;
                 }
+                self.policy_restamped(o);
                 self.conns[i].established = true;
                 self.conns[i].requests += 1;
                 self.note(format!("connection to {} established: failures=0, succeed(), active_requests+=1", self.describe(o)));
@@ -1048,11 +1302,7 @@ impl<'a> Lab<'a> {
                 }
                 let i = *self.rng.pick(&pending);
                 let o = self.conns[i].obj;
-                {
-                    let mut b = self.objs[o].rc.borrow_mut();
-                    b.failures += 1;
-                    b.retry_policy.fail();
-                }
+                self.inflict_failure(rep, o);
                 self.note(format!("connection to {} failed: failures+=1, fail()", self.describe(o)));
                 rep.obs("connections_failed_async", 1);
                 self.close_conn(rep, i, false);
@@ -1133,16 +1383,13 @@ impl<'a> Lab<'a> {
         match self.rng.below(3) {
             0 => {
                 // identical re-add of a member (control plane re-emitting the same backend)
-                let Some(o) = self.live_obj(c) else { return };
-                let (id, addr, sticky, params, backup, member) = {
-                    let b = self.objs[o].rc.borrow();
-                    let m = self.members[c].iter().any(|(i, a)| *i == b.backend_id && *a == b.address);
-                    (b.backend_id.clone(), b.address, b.sticky_id.clone(), b.load_balancing_parameters, b.backup, m)
-                };
-                if !member {
+                if self.members[c].is_empty() {
                     return;
                 }
-                self.map.add_backend(CL[c], Backend::new(&id, addr, sticky, params, Some(backup)));
+                let m = self.rng.pick(&self.members[c]).clone();
+                let (id, addr) = (m.id, m.addr);
+                let params = m.weight.map(|w| LoadBalancingParams { weight: w });
+                self.map.add_backend(CL[c], Backend::new(&id, addr, m.sticky, params, Some(m.backup)));
                 self.discover();
                 self.note(format!("add_backend {} {id}@{addr} again with identical parameters", CL[c]));
             }
@@ -1210,7 +1457,29 @@ impl<'a> Lab<'a> {
         if self.rng.chance(1, 5) {
             self.round(rep, 1 - c);
         }
+        self.check_windows(rep);
         self.check_counters(rep, "after operation");
+    }
+
+    /// aged cell: let every policy grow older than the first wait it can draw (1 s), then fail a
+    /// backend and select at once
+    fn age(&mut self, rep: &mut Report) {
+        for _ in 0..2 {
+            self.op_add(rep, 0);
+        }
+        self.op_add(rep, 1);
+        std::thread::sleep(Duration::from_millis(1200));
+        self.note("sleep 1200 ms (every retry policy is now older than the first back-off wait)".into());
+        rep.obs("aged_cells", 1);
+        self.shape.push(19);
+        for c in 0..2 {
+            if let Some(o) = self.live_obj(c) {
+                self.inflict_failure(rep, o);
+                self.note(format!("connection failure on {}: failures+=1, retry_policy.fail()", self.describe(o)));
+                self.round(rep, c);
+                self.check_windows(rep);
+            }
+        }
     }
 }
 
@@ -1247,6 +1516,8 @@ fn run_history_inner(ctx: &Ctx, seed: u64, case: u64, rep: &mut Report, log: &Re
     // The random draw is kept so that case generation is unchanged.
     let close_by_address = rng.chance(1, 10) && ctx.opt_u64("dead_close_api", 0) == 1;
     let allow_sleep = rng.chance(1, 100);
+    // aged cells really sleep 1.2 s: few of them (they run in parallel with the others)
+    let aged = case % ctx.tier.pick(150, 400) == 7;
     let mut lab = Lab {
         case,
         seed,
@@ -1267,6 +1538,7 @@ fn run_history_inner(ctx: &Ctx, seed: u64, case: u64, rep: &mut Report, log: &Re
         strict_down: ctx.opt_u64("strict_down", 0) != 0,
         allow_sleep,
         slept: false,
+        aged,
         log,
         shape: Vec::new(),
         reached: Reached::default(),
@@ -1288,15 +1560,17 @@ fn run_history_inner(ctx: &Ctx, seed: u64, case: u64, rep: &mut Report, log: &Re
                     continue;
                 }
                 let params = lab.gen_weight();
+                let sticky = if lab.rng.bool() { Some((*lab.rng.pick(&STICKY)).to_owned()) } else { None };
+                let backup = if lab.rng.chance(1, 4) { Some(true) } else { None };
                 v.push(sozu_command_lib::response::Backend {
                     cluster_id: CL[c].to_owned(),
                     backend_id: id.clone(),
                     address: addr,
-                    sticky_id: if lab.rng.bool() { Some((*lab.rng.pick(&STICKY)).to_owned()) } else { None },
+                    sticky_id: sticky.clone(),
                     load_balancing_parameters: params,
-                    backup: if lab.rng.chance(1, 4) { Some(true) } else { None },
+                    backup,
                 });
-                lab.members[c].push((id, addr));
+                lab.members[c].push(Member { id, addr, backup: backup.unwrap_or(false), sticky, weight: params.map(|p| p.weight), role_changed: false });
             }
             lab.note(format!("import_configuration_state {} {:?}", CL[c], v.iter().map(|b| format!("{}@{} sticky={:?} weight={:?} backup={:?}", b.backend_id, b.address, b.sticky_id, b.load_balancing_parameters.map(|p| p.weight), b.backup)).collect::<Vec<_>>()));
             h.insert(CL[c].to_owned(), v);
@@ -1316,6 +1590,9 @@ fn run_history_inner(ctx: &Ctx, seed: u64, case: u64, rep: &mut Report, log: &Re
         lab.op_add(rep, 0);
     }
     lab.round(rep, 0);
+    if lab.aged && !lab.dead {
+        lab.age(rep);
+    }
 
     for _ in 0..n_ops {
         if lab.dead {
@@ -1384,11 +1661,13 @@ fn run_history(ctx: &Ctx, seed: u64, case: u64, rep: &mut Report) {
 pub fn run(ctx: &Ctx) -> Report {
     let mut rep = Report::new(
         "exploration",
-        "random histories of 20-80 (thorough: 20-100) operations on a BackendMap with two clusters sharing a pool of 6 backend ids, 8 addresses (6 connectable, 2 failing synchronously), 3 sticky ids: add (fresh / same id other address / same address other id / update in place / identical re-add), address-keyed remove (also with open connections), import_configuration_state, set_closing, health probe results up to the thresholds and cluster-wide outages, health-config reset, retry-policy replacement (max_tries 0/1/2/6), connection failures/successes, inc/dec of connections (by object and by address), request counts, switches among the six load-balancing policies with all three metrics, weights (None, 0..255, in a quarter of the histories also extreme i32 values), backup flags; after every operation: unkeyed and keyed selections through BackendList and BackendMap (same key twice), sometimes connecting selections and sticky selections; a case is non-trivial when a cluster held >= 2 backends and a selection returned a backend; distinct = distinct operation-shape sequences",
+        "random histories of 20-80 (thorough: 20-100) operations on a BackendMap with two clusters sharing a pool of 6 backend ids, 8 addresses (6 connectable, 2 failing synchronously), 3 sticky ids: add (fresh / same id other address / same address other id / update in place with everything redrawn / re-add with the backup role flipped and weight or sticky id kept or changed / identical re-add), address-keyed remove (also with open connections), import_configuration_state, set_closing, health probe results up to the thresholds and cluster-wide outages, health-config reset, retry-policy replacement (max_tries 0/1/2/6), connection failures/successes, inc/dec of connections (by object and by address), request counts, switches among the six load-balancing policies with all three metrics, weights (None, 0..255, in a quarter of the histories also extreme i32 values), backup flags; one history in 150 (thorough: 400) first sleeps 1.2 s so that its retry policies are older than the first back-off wait, then fails a backend and selects at once; after every operation: unkeyed and keyed selections through BackendList and BackendMap (same key twice), sometimes connecting selections and sticky selections; a case is non-trivial when a cluster held >= 2 backends and a selection returned a backend; distinct = distinct operation-shape sequences",
     );
     rep.assume("eligible := member of the cluster per the harness's own add/remove record (remove is address-keyed as documented on BackendMap::remove_backend) AND status Normal AND health Healthy AND retry_policy.can_try() == OKAY; `is_down()` (retry budget exhausted) is observed but is not part of the statement's predicate");
     rep.assume("fail-open exemption as documented (doc/metrics.md `backends.fail_open`, doc/health_checks.md): nothing eligible, returned backend Normal and retry policy OKAY");
     rep.assume("back-off windows are >= 1 s wall-clock and the policy's fields are private: WAIT and down states are entered through fail() on policies built with the public ExponentialBackoffPolicy::new(0|1|2|6); leaving a window by time is exercised by one 1.05 s sleep in ~1% of the histories only");
+    rep.assume("back-off by the harness's own clock: for every failure the harness inflicts or witnesses (failures counter of a backend grew during a connecting selection) on a policy that answered OKAY just before, it takes its own Instant before the failure and reads the wait the policy drew (Debug output of the policy, fallback 1 s); until that instant + wait - 200 ms (own clock read after the policy answered / the selection returned) the backend counts as backing off whatever can_try() says");
+    rep.assume("backup role and sticky id of a backend are the ones of the last add for its (id, address) - the operation's arguments - not the live object's fields");
     rep.assume("a sticky id carried by several backends of a cluster, and a sticky id naming a backup while a primary is eligible, are exempt (the statement does not order them)");
     rep.assume("Backend.active_requests is only written by protocol code outside this lab; here it is load-metric input, its conservation is decided by the worker lab");
     rep.assume("connecting selections whose connect() fails synchronously return no backend and are not judged (the failure itself moves the backend into back-off)");
@@ -1425,6 +1704,18 @@ pub fn run(ctx: &Ctx) -> Report {
         "histories_reaching_closed",
         "histories_reaching_fail_open",
         "histories_closed_to_zero",
+        "aged_cells",
+        "backoff_windows_tracked",
+        "backoff_windows_tracked_on_aged_policy",
+        "window_state_checks",
+        "window_state_checks_on_aged_policy",
+        "selections_with_backend_inside_tracked_window",
+        "selections_with_aged_backend_inside_tracked_window",
+        "readds_demoting_primary_to_backup",
+        "readds_promoting_backup_to_primary",
+        "readds_changing_sticky_id",
+        "readds_changing_weight",
+        "selections_judged_against_role_changed_by_readd",
     ] {
         rep.require(k);
     }
